@@ -1258,4 +1258,109 @@ theorem clonePage_fuel_mono (src : Src) (f : Nat) (p : PageM) (st : St)
   | panic => rfl
   | oof => exact absurd hr hops
 
+/-! ### pages in the page tree -/
+
+/-- what a successfully cloned page of the tree looks like: the page of `PageOK` over the *effective* resource
+    dictionary, with the effective boxes as its own -/
+structure PageTOK (pt : PageT) (out : PageOutT) (st' : St) : Prop where
+  res : ∃ r, nearest pt.resChain = some r ∧ PageOK ⟨pt.ops, r, pt.rest⟩ ⟨out.res, out.rest⟩ st'
+  media : nearest pt.media = some out.media
+  crop : out.crop = (nearest pt.crop).getD out.media
+  trim : out.trim = pt.trim
+  rotate : out.rotate = pt.ownRotate
+
+theorem clonePageT_spec (src : Src) (f : Nat) (pt : PageT) (st : St) (h : Inv src st) :
+    Inv src (clonePageT f src pt st).2 ∧ Ext st (clonePageT f src pt st).2 ∧
+      ∀ out, (clonePageT f src pt st).1 = .ok out → PageTOK pt out (clonePageT f src pt st).2 := by
+  simp only [clonePageT]
+  cases hres : nearest pt.resChain with
+  | none => simp only; exact ⟨h, Ext.refl st, by intro _ hh; cases hh⟩
+  | some res =>
+    simp only
+    have ho := cloneOps_spec src f res pt.ops st h
+    have hk := kids_spec src (cloneRef f src) (cloneRef_spec src f) pt.rest (cloneOps f src res pt.ops st).2.2 ho.1.1
+    cases hr : (cloneOps f src res pt.ops st).1 with
+    | ok us =>
+      simp only
+      cases hm : nearest pt.media with
+      | none => simp only; exact ⟨ho.1.1, ho.2.1, by intro _ hh; cases hh⟩
+      | some m =>
+        simp only
+        cases hr2 : (cloneKids f src pt.rest (cloneOps f src res pt.ops st).2.2).1 with
+        | ok ks =>
+          simp only
+          refine ⟨hk.1, ho.2.1.trans hk.2.1, ?_⟩
+          intro out hout
+          simp only [Out.ok.injEq] at hout
+          subst hout
+          refine ⟨⟨res, hres, ?_, ?_, hk.2.2 ks hr2⟩, hm, rfl, rfl, rfl⟩
+          · intro k name hop hh ent hent
+            obtain ⟨v, hv⟩ := ho.2.2 us hr _ hop k name rfl hh ent hent
+            obtain ⟨pl, ks'⟩ := v
+            obtain ⟨_, ent', h1, h2, h3⟩ := ho.1.2 k name pl ks' hv
+            rw [hent] at h1; cases h1
+            exact ⟨ks', by rw [hv, h2], mapped_mono _ _ hk.2.1.map_ext _ _ h3⟩
+          · intro k name pl ks' hv
+            obtain ⟨hh, ent', h1, h2, h3⟩ := ho.1.2 k name pl ks' hv
+            exact ⟨hh, ent', h1, h2, mapped_mono _ _ hk.2.1.map_ext _ _ h3⟩
+        | err => simp only; exact ⟨hk.1, ho.2.1.trans hk.2.1, by intro _ hh; cases hh⟩
+        | panic => simp only; exact ⟨hk.1, ho.2.1.trans hk.2.1, by intro _ hh; cases hh⟩
+        | oof => simp only; exact ⟨hk.1, ho.2.1.trans hk.2.1, by intro _ hh; cases hh⟩
+    | err => simp only; exact ⟨ho.1.1, ho.2.1, by intro _ hh; cases hh⟩
+    | panic => simp only; exact ⟨ho.1.1, ho.2.1, by intro _ hh; cases hh⟩
+    | oof => simp only; exact ⟨ho.1.1, ho.2.1, by intro _ hh; cases hh⟩
+
+theorem clonePagesT_spec (src : Src) (f : Nat) : ∀ (ps : List PageT) (st : St), Inv src st →
+    Inv src (clonePagesT f src ps st).2 ∧ Ext st (clonePagesT f src ps st).2 := by
+  intro ps
+  induction ps with
+  | nil => intro st h; exact ⟨h, Ext.refl st⟩
+  | cons p ps ih =>
+    intro st h
+    simp only [clonePagesT]
+    have h1 := clonePageT_spec src f p st h
+    have h2 := ih _ h1.1
+    exact ⟨h2.1, h1.2.1.trans h2.2⟩
+
+theorem clonePageT_ne_panic (src : Src) (f : Nat) (pt : PageT) (st : St) : (clonePageT f src pt st).1 ≠ .panic := by
+  simp only [clonePageT]
+  split
+  · simp
+  · split
+    · split
+      · simp
+      · split
+        · simp
+        · simp
+        · rename_i hh; exact absurd hh (mapSt_ne_panic _ (cloneRef_ne_panic src f) _ _)
+        · simp
+    · simp
+    · rename_i hh; exact absurd hh (mapSt_ne_panic _ (cloneOp_ne_panic src f _) _ _)
+    · simp
+
+theorem nearest_cons_some {α : Type} (v : α) (c : List (Option α)) : nearest (some v :: c) = some v := rfl
+theorem nearest_cons_none {α : Type} (c : List (Option α)) : nearest (none :: c) = nearest c := rfl
+
+/-- the value `nearest` returns is an entry of the chain, and every entry before it is absent -/
+theorem nearest_spec {α : Type} : ∀ (c : List (Option α)) (v : α), nearest c = some v →
+    ∃ i : Nat, c[i]? = some (some v) ∧ ∀ j : Nat, j < i → c[j]? = some none := by
+  intro c
+  induction c with
+  | nil => intro v h; cases h
+  | cons x c ih =>
+    intro v h
+    cases x with
+    | some w =>
+      simp only [nearest_cons_some, Option.some.injEq] at h
+      subst h
+      exact ⟨0, rfl, by intro j hj; omega⟩
+    | none =>
+      rw [nearest_cons_none] at h
+      obtain ⟨i, hi, hlt⟩ := ih v h
+      refine ⟨i + 1, by simpa using hi, ?_⟩
+      intro j hj
+      cases j with
+      | zero => rfl
+      | succ j => simpa using hlt j (by omega)
+
 end Import
